@@ -27,6 +27,7 @@ import (
 // ---------------------------------------------------------------- descriptors
 
 type Fam struct {
+	Conv  bool // gorm conventions instead of foreignKey / references tags (family D)
 	Name  string
 	Parts []string // Go field names of the key parts of XP / XT / XG
 	Types []string // "uint" | "int" | "str"
@@ -49,24 +50,33 @@ var fams = map[string]*Fam{
 	"B": {Name: "B", Parts: []string{"K"}, Types: []string{"bytes"},
 		Mod: map[string]interface{}{"P": BP{}, "O": BO{}, "M": BM{}, "T": BT{}, "G": BG{}}},
 }
-var famNames = []string{"I", "S", "C", "M", "R", "V", "B"}
+var famNames = []string{"I", "S", "C", "M", "R", "V", "B", "D"}
+
+func init() {
+	fams["D"] = &Fam{Name: "D", Parts: []string{"ID"}, Types: []string{"uint"}, Conv: true,
+		Mod: map[string]interface{}{"P": DP{}, "O": DO{}, "M": DM{}, "T": DT{}, "G": DG{}, "N": DN{}}}
+}
 
 // Rel describes one relation: which Go fields of the parent and of the child are matched.
 type Rel struct {
-	Name   string
-	Kind   string
-	On     string // model the relation field lives on: "P" or "M"
-	Child  string // model of the child rows
-	Single bool
-	M2M    bool
-	PF, CF []string // Go field names (parent side, child side)
-	KT     []string // key part types when they are not the family's (keys overridden by tags)
-	PPtr   bool
-	CPtr   bool
-	Poly   string
-	JOwner []string // join-table columns (db names)
-	JTag   []string
-	JTable string
+	Name            string
+	Kind            string
+	On              string // model the relation field lives on: "P" or "M"
+	Child           string // model of the child rows
+	Single          bool
+	M2M             bool
+	PF, CF          []string // Go field names (parent side, child side)
+	KT              []string // key part types when they are not the family's (keys overridden by tags)
+	TypeF           string   // polymorphic: Go field / db column of the type ("" = OwnerType / owner_type)
+	TypeC           string
+	Tbl             string // key of the join rows in Input.Tables ("" = "J")
+	NoJoin, NoAssoc bool   // the relation is only reachable by Preload (relation inside an embedded struct)
+	PPtr            bool
+	CPtr            bool
+	Poly            string
+	JOwner          []string // join-table columns (db names)
+	JTag            []string
+	JTable          string
 }
 
 func pre(p string, parts []string) []string {
@@ -78,6 +88,21 @@ func pre(p string, parts []string) []string {
 }
 
 func (f *Fam) rels() map[string]Rel {
+	if f.Conv {
+		id := []string{"ID"}
+		return map[string]Rel{
+			"One":        {Name: "One", Kind: "has_one_by_convention", On: "P", Child: "O", Single: true, PF: id, CF: []string{"DPID"}, CPtr: true},
+			"Many":       {Name: "Many", Kind: "has_many_by_convention", On: "P", Child: "M", PF: id, CF: []string{"DPID"}, CPtr: true},
+			"Target":     {Name: "Target", Kind: "belongs_to_by_convention", On: "P", Child: "T", Single: true, PF: []string{"TargetID"}, CF: id, PPtr: true},
+			"Tags":       {Name: "Tags", Kind: "many2many_default_keys", On: "P", Child: "G", M2M: true, PF: id, CF: id, JTable: "dp_tags", JOwner: []string{"dp_id"}, JTag: []string{"dg_id"}},
+			"Friends":    {Name: "Friends", Kind: "self_many2many", On: "P", Child: "P", M2M: true, PF: id, CF: id, JTable: "dp_friends", JOwner: []string{"dp_id"}, JTag: []string{"friend_id"}, Tbl: "J2"},
+			"Boss":       {Name: "Boss", Kind: "self_belongs_to", On: "P", Child: "P", Single: true, PF: []string{"BossID"}, CF: id, PPtr: true},
+			"Team":       {Name: "Team", Kind: "self_has_many", On: "P", Child: "P", PF: id, CF: []string{"BossID"}, CPtr: true},
+			"Owner":      {Name: "Owner", Kind: "belongs_to", On: "M", Child: "P", Single: true, PF: []string{"DPID"}, CF: id, PPtr: true},
+			"Notes":      {Name: "Notes", Kind: "polymorphic_renamed_columns", On: "P", Child: "N", PF: id, CF: []string{"OID"}, CPtr: true, Poly: "xp", TypeF: "Kind", TypeC: "kind"},
+			"Info.Buddy": {Name: "Info.Buddy", Kind: "embedded_belongs_to", On: "P", Child: "T", Single: true, PF: []string{"Info.BuddyID"}, CF: id, PPtr: true, NoJoin: true, NoAssoc: true},
+		}
+	}
 	lower := func(p string, parts []string) []string {
 		out := make([]string, len(parts))
 		for i, x := range parts {
@@ -116,6 +141,9 @@ func (f *Fam) kt(r Rel) []string {
 }
 
 func (f *Fam) relNamesOnP() []string {
+	if f.Conv {
+		return []string{"One", "Many", "Target", "Tags", "Friends", "Boss", "Team", "Notes", "Info.Buddy"}
+	}
 	out := []string{"One", "Many", "Target", "Tags", "Boss", "Team"}
 	if _, ok := f.Mod["N"]; ok {
 		out = append(out, "Notes")
@@ -128,6 +156,15 @@ func (f *Fam) relNamesOnP() []string {
 
 // nested second hops available below a first hop
 func (f *Fam) nestedOf(first string) []string {
+	if f.Conv {
+		switch first {
+		case "Many", "One":
+			return []string{"Owner"}
+		case "Team", "Boss":
+			return []string{"One", "Many", "Target", "Boss", "Team", "Notes", "Info.Buddy"}
+		}
+		return nil
+	}
 	switch first {
 	case "Many":
 		return []string{"Owner"}
@@ -146,6 +183,15 @@ func (f *Fam) nestedOf(first string) []string {
 
 // third hops available below a second hop (the third hop may be many2many)
 func (f *Fam) nestedOf2(second string) []string {
+	if f.Conv {
+		switch second {
+		case "Many", "One":
+			return []string{"Owner"}
+		case "Team", "Boss", "Owner":
+			return []string{"One", "Many", "Target", "Boss", "Team", "Notes", "Tags", "Friends"}
+		}
+		return nil
+	}
 	switch second {
 	case "Many":
 		return []string{"Owner"}
@@ -167,6 +213,9 @@ func schemaOf(db *gorm.DB, model interface{}) *schema.Schema {
 
 func (f *Fam) table(db *gorm.DB, m string) string { return schemaOf(db, f.Mod[m]).Table }
 func (f *Fam) col(db *gorm.DB, m, goName string) string {
+	if i := strings.LastIndex(goName, "."); i >= 0 { // field of an embedded struct
+		goName = goName[i+1:]
+	}
 	fd := schemaOf(db, f.Mod[m]).LookUpField(goName)
 	if fd == nil {
 		panic("no field " + goName + " on " + f.Name + m)
@@ -525,7 +574,21 @@ func (e *Env) reset(f *Fam) {
 	for m := range f.Mod {
 		lib.Must(e.db.Exec("DELETE FROM " + f.table(e.db, m)).Error)
 	}
-	lib.Must(e.db.Exec("DELETE FROM " + f.rels()["Tags"].JTable).Error)
+	for _, r := range f.rels() {
+		if r.JTable != "" {
+			lib.Must(e.db.Exec("DELETE FROM " + r.JTable).Error)
+		}
+	}
+}
+
+// joinTableOf: the join table whose rows are stored under key m of Input.Tables ("J", "J2").
+func (f *Fam) joinTableOf(m string) string {
+	for _, r := range f.rels() {
+		if r.JTable != "" && (r.Tbl == m || (r.Tbl == "" && m == "J")) {
+			return r.JTable
+		}
+	}
+	return ""
 }
 
 const delStamp = "2020-02-02 02:02:02"
@@ -547,7 +610,7 @@ func (e *Env) load(f *Fam, in Input) {
 			}
 			sort.Strings(names)
 			for _, k := range names {
-				if m == "J" {
+				if f.joinTableOf(m) != "" {
 					cols = append(cols, k)
 				} else {
 					cols = append(cols, f.col(e.db, m, k))
@@ -558,8 +621,8 @@ func (e *Env) load(f *Fam, in Input) {
 				}
 				args = append(args, a)
 			}
-			tbl := f.rels()["Tags"].JTable
-			if m != "J" {
+			tbl := f.joinTableOf(m)
+			if tbl == "" {
 				tbl = f.table(e.db, m)
 				cols = append(cols, "deleted_at")
 				if r.Del {
@@ -586,7 +649,9 @@ func (e *Env) dump(f *Fam, rel Rel, key2F []string, key2Ptr bool, key2T ...strin
 	}
 	tbl := f.table(e.db, rel.Child)
 	cols := []string{"uid", "v", "deleted_at IS NOT NULL"}
-	if rel.Poly != "" {
+	if rel.Poly != "" && rel.TypeC != "" {
+		cols = append(cols, rel.TypeC)
+	} else if rel.Poly != "" {
 		cols = append(cols, "owner_type")
 	} else {
 		cols = append(cols, "''")
@@ -682,7 +747,7 @@ func uidOf(v reflect.Value) int64 { return reflect.Indirect(v).FieldByName("UID"
 
 // attached returns the uids held by relation field name of obj, plus the held objects.
 func attached(obj reflect.Value, name string) ([]int64, []reflect.Value) {
-	fv := reflect.Indirect(obj).FieldByName(name)
+	fv := fieldByPath(obj, name)
 	var ids []int64
 	var objs []reflect.Value
 	switch fv.Kind() {
@@ -706,10 +771,19 @@ func attached(obj reflect.Value, name string) ([]int64, []reflect.Value) {
 	return ids, objs
 }
 
+// fieldByPath: "Info.Buddy" = field Buddy of the embedded struct field Info.
+func fieldByPath(obj reflect.Value, path string) reflect.Value {
+	v := reflect.Indirect(obj)
+	for _, n := range strings.Split(path, ".") {
+		v = reflect.Indirect(v).FieldByName(n)
+	}
+	return v
+}
+
 func keyOfObj(obj reflect.Value, fields []string) []KP {
 	out := make([]KP, len(fields))
 	for i, f := range fields {
-		out[i] = kpOfField(reflect.Indirect(obj).FieldByName(f))
+		out[i] = kpOfField(fieldByPath(obj, f))
 	}
 	return out
 }
@@ -1157,7 +1231,11 @@ func formerShape(in Input) string {
 		ps := rowsKeys(f, in.Tables[r.On], r.PF, r.PPtr, false)
 		if r.M2M {
 			var jl, jr [][]KP
-			for _, row := range in.Tables["J"] {
+			jt := "J"
+			if r.Tbl != "" {
+				jt = r.Tbl
+			}
+			for _, row := range in.Tables[jt] {
 				l := make([]KP, len(r.JOwner))
 				rr := make([]KP, len(r.JTag))
 				for i := range r.JOwner {
@@ -1304,6 +1382,9 @@ func genInput(r *lib.Rng, edge bool) Input {
 	default:
 		in.Mode = "assoc"
 	}
+	if (in.Mode == "joins" && rel.NoJoin) || (in.Mode == "assoc" && rel.NoAssoc) {
+		in.Mode = "preload"
+	}
 	in.Shape = lib.Pick(r, []string{"slice", "slice", "slice", "ptrs", "ptrs", "struct"})
 	in.Unscoped = r.Chance(1, 5)
 	genCond := func() Cond {
@@ -1440,8 +1521,11 @@ func genInput(r *lib.Rng, edge bool) Input {
 		row := base()
 		row.Del = r.Chance(1, 10)
 		setKey(&row, f.Parts, k)
-		setKey(&row, pre("T", f.Parts), fkChoice(r, tk, pool, ar, 55, 15, 20))
-		setKey(&row, pre("B", f.Parts), fkChoice(r, pk, pool, ar, 45, 10, 35))
+		setKey(&row, rels["Target"].PF, fkChoice(r, tk, pool, ar, 55, 15, 20))
+		setKey(&row, rels["Boss"].PF, fkChoice(r, pk, pool, ar, 45, 10, 35))
+		if eb, ok := rels["Info.Buddy"]; ok { // foreign key inside the embedded struct
+			setKey(&row, []string{eb.PF[0][strings.LastIndex(eb.PF[0], ".")+1:]}, fkChoice(r, tk, pool, ar, 55, 15, 20))
+		}
 		in.Tables["P"] = append(in.Tables["P"], row)
 	}
 	// has-one: at most one row per foreign-key value
@@ -1460,21 +1544,25 @@ func genInput(r *lib.Rng, edge bool) Input {
 		}
 		row := base()
 		row.F["ID"] = VI(uid)
-		setKey(&row, pre("P", f.Parts), fk)
+		setKey(&row, rels["One"].CF, fk)
 		in.Tables["O"] = append(in.Tables["O"], row)
 	}
 	for i, n := 0, r.Range(1, 10); i < n; i++ {
 		row := base()
 		row.F["ID"] = VI(uid)
-		setKey(&row, pre("P", f.Parts), fkChoice(r, pk, pool, ar, 70, 10, 12))
+		setKey(&row, rels["Many"].CF, fkChoice(r, pk, pool, ar, 70, 10, 12))
 		in.Tables["M"] = append(in.Tables["M"], row)
 	}
 	if _, ok := f.Mod["N"]; ok {
 		for i, n := 0, r.Range(1, 8); i < n; i++ {
 			row := base()
 			row.F["ID"] = VI(uid)
-			row.F["OwnerID"] = fkChoice(r, pk, pool, 1, 70, 10, 20)[0]
-			row.F["OwnerType"] = VS(lib.Pick(r, []string{"xp", "xp", "xp", "other"}))
+			tf := "OwnerType"
+			if rels["Notes"].TypeF != "" {
+				tf = rels["Notes"].TypeF
+			}
+			row.F[rels["Notes"].CF[0]] = fkChoice(r, pk, pool, 1, 70, 10, 20)[0]
+			row.F[tf] = VS(lib.Pick(r, []string{"xp", "xp", "xp", "other"}))
 			in.Tables["N"] = append(in.Tables["N"], row)
 		}
 	}
@@ -1555,6 +1643,24 @@ func genInput(r *lib.Rng, edge bool) Input {
 		setKey(&row, tags.JOwner, l)
 		setKey(&row, tags.JTag, g)
 		in.Tables["J"] = append(in.Tables["J"], row)
+	}
+	if fr, ok := rels["Friends"]; ok { // self-referential many2many
+		var seen [][]Val
+		for i, n := 0, r.Range(1, 9); i < n && len(pk) > 0; i++ {
+			l, g := lib.Pick(r, pk), lib.Pick(r, pk)
+			if r.Chance(1, 6) {
+				g = lib.Pick(r, pool)
+			}
+			both := append(append([]Val{}, l...), g...)
+			if hasTuple(seen, both) {
+				continue
+			}
+			seen = append(seen, both)
+			row := Row{F: map[string]Val{}}
+			setKey(&row, fr.JOwner, l)
+			setKey(&row, fr.JTag, g)
+			in.Tables["J2"] = append(in.Tables["J2"], row)
+		}
 	}
 	if in.Reload != nil {
 		for _, row := range in.Tables[rel.Child] {
@@ -2026,6 +2132,6 @@ func main() {
 		}
 		add(kind, in)
 	}
-	out.Extra["rule"] = "cases = data graph over one of 5 key signatures (uint, string, (string,string), (int64,string), (string,int64)) x relation {has_one, has_many, belongs_to, many2many, polymorphic, self belongs_to, self has_many} x {Preload single / nested / clause.Associations / with inline or scope conditions / a named preload with its own conditions combined with clause.Associations carrying conditions or an Unscoped scope (both orders) / the same destination loaded again after rows were soft-deleted or with other conditions, association Joins / InnerJoins without and with ON conditions passed as *gorm.DB (+nested preload below the join), Association().Find} x Unscoped x parent shape {struct, slice, slice of pointers} x duplicated parents; key strings include separators, the text nil and the empty string, numeric key parts include 0 (also as the LAST part of a composite key of a struct-shaped parent: deterministic 'targeted' stream in every tier), foreign keys include NULL and partly NULL tuples, children include soft-deleted rows; the inputs of the four defects fixed in /repo (separator / nil / zero key collisions, empty composite IN) are replayed from corpus/C11 first and occur in the random streams and the sweep like any other input; distinct = distinct (family, relation, mode, path, conditions, shape, table sizes, flags) shapes; non-trivial = at least one child attached and either two parents with different non-empty attachments or a child row of the table attached to nobody"
+	out.Extra["rule"] = "cases = data graph over one of 8 model families (keys: uint, string, (string,string), (int64,string), (string,int64), (int64,string) with sql.Null* foreign keys, []byte, uint by gorm's naming conventions without foreignKey/references tags) x relation {has_one, has_many, belongs_to, many2many, polymorphic, self belongs_to, self has_many} x {Preload single / nested / clause.Associations / with inline or scope conditions / a named preload with its own conditions combined with clause.Associations carrying conditions or an Unscoped scope (both orders) / the same destination loaded again after rows were soft-deleted or with other conditions, association Joins / InnerJoins without and with ON conditions passed as *gorm.DB (+nested preload below the join), Association().Find} x Unscoped x parent shape {struct, slice, slice of pointers} x duplicated parents; key strings include separators, the text nil and the empty string, numeric key parts include 0 (also as the LAST part of a composite key of a struct-shaped parent: deterministic 'targeted' stream in every tier), foreign keys include NULL and partly NULL tuples, children include soft-deleted rows; the inputs of the four defects fixed in /repo (separator / nil / zero key collisions, empty composite IN) are replayed from corpus/C11 first and occur in the random streams and the sweep like any other input; distinct = distinct (family, relation, mode, path, conditions, shape, table sizes, flags) shapes; non-trivial = at least one child attached and either two parents with different non-empty attachments or a child row of the table attached to nobody"
 	lib.Must(out.Flush())
 }
